@@ -222,6 +222,162 @@ def harden_shell_false(style: int, args: int, decoy: int) -> bool:
     return fin(_harden(3, style, args, decoy))
 
 
+def _sast(name: str, style: int, args: int, decoy: int, layout: int) -> bool:
+    from harness import hardsast
+
+    return hardsast.check(name, style, args, decoy, layout) is None
+
+
+def sast_requests_verify(style: int, args: int, decoy: int, layout: int) -> bool:
+    """requests-verify (detector-driven): complete real transformer chain with ONE result placed on the vulnerable call of a
+    selector-built module (import style x argument list x unreported identical call / unrelated call x layout).  The
+    token delta lies inside the documented edit, arguments are kept in order, unreported statements are unchanged,
+    the output compiles and no name becomes unresolved.
+    post: _
+    """
+    return fin(_sast("requests-verify", style, args, decoy, layout))
+
+
+def sast_add_requests_timeouts(style: int, args: int, decoy: int, layout: int) -> bool:
+    """add-requests-timeouts (detector-driven): complete real transformer chain with ONE result placed on the vulnerable call of a
+    selector-built module (import style x argument list x unreported identical call / unrelated call x layout).  The
+    token delta lies inside the documented edit, arguments are kept in order, unreported statements are unchanged,
+    the output compiles and no name becomes unresolved.
+    post: _
+    """
+    return fin(_sast("add-requests-timeouts", style, args, decoy, layout))
+
+
+def sast_harden_pyyaml(style: int, args: int, decoy: int, layout: int) -> bool:
+    """harden-pyyaml (detector-driven): complete real transformer chain with ONE result placed on the vulnerable call of a
+    selector-built module (import style x argument list x unreported identical call / unrelated call x layout).  The
+    token delta lies inside the documented edit, arguments are kept in order, unreported statements are unchanged,
+    the output compiles and no name becomes unresolved.
+    post: _
+    """
+    return fin(_sast("harden-pyyaml", style, args, decoy, layout))
+
+
+def sast_enable_jinja2_autoescape(style: int, args: int, decoy: int, layout: int) -> bool:
+    """enable-jinja2-autoescape (detector-driven): complete real transformer chain with ONE result placed on the vulnerable call of a
+    selector-built module (import style x argument list x unreported identical call / unrelated call x layout).  The
+    token delta lies inside the documented edit, arguments are kept in order, unreported statements are unchanged,
+    the output compiles and no name becomes unresolved.
+    post: _
+    """
+    return fin(_sast("enable-jinja2-autoescape", style, args, decoy, layout))
+
+
+def sast_safe_lxml_parser_defaults(style: int, args: int, decoy: int, layout: int) -> bool:
+    """safe-lxml-parser-defaults (detector-driven): complete real transformer chain with ONE result placed on the vulnerable call of a
+    selector-built module (import style x argument list x unreported identical call / unrelated call x layout).  The
+    token delta lies inside the documented edit, arguments are kept in order, unreported statements are unchanged,
+    the output compiles and no name becomes unresolved.
+    post: _
+    """
+    return fin(_sast("safe-lxml-parser-defaults", style, args, decoy, layout))
+
+
+def sast_safe_lxml_parsing(style: int, args: int, decoy: int, layout: int) -> bool:
+    """safe-lxml-parsing (detector-driven): complete real transformer chain with ONE result placed on the vulnerable call of a
+    selector-built module (import style x argument list x unreported identical call / unrelated call x layout).  The
+    token delta lies inside the documented edit, arguments are kept in order, unreported statements are unchanged,
+    the output compiles and no name becomes unresolved.
+    post: _
+    """
+    return fin(_sast("safe-lxml-parsing", style, args, decoy, layout))
+
+
+def sast_secure_random(style: int, args: int, decoy: int, layout: int) -> bool:
+    """secure-random (detector-driven): complete real transformer chain with ONE result placed on the vulnerable call of a
+    selector-built module (import style x argument list x unreported identical call / unrelated call x layout).  The
+    token delta lies inside the documented edit, arguments are kept in order, unreported statements are unchanged,
+    the output compiles and no name becomes unresolved.
+    post: _
+    """
+    return fin(_sast("secure-random", style, args, decoy, layout))
+
+
+def sast_sandbox_process_creation(style: int, args: int, decoy: int, layout: int) -> bool:
+    """sandbox-process-creation (detector-driven): complete real transformer chain with ONE result placed on the vulnerable call of a
+    selector-built module (import style x argument list x unreported identical call / unrelated call x layout).  The
+    token delta lies inside the documented edit, arguments are kept in order, unreported statements are unchanged,
+    the output compiles and no name becomes unresolved.
+    post: _
+    """
+    return fin(_sast("sandbox-process-creation", style, args, decoy, layout))
+
+
+def sast_url_sandbox(style: int, args: int, decoy: int, layout: int) -> bool:
+    """url-sandbox (detector-driven): complete real transformer chain with ONE result placed on the vulnerable call of a
+    selector-built module (import style x argument list x unreported identical call / unrelated call x layout).  The
+    token delta lies inside the documented edit, arguments are kept in order, unreported statements are unchanged,
+    the output compiles and no name becomes unresolved.
+    post: _
+    """
+    return fin(_sast("url-sandbox", style, args, decoy, layout))
+
+
+def sast_upgrade_sslcontext_tls(style: int, args: int, decoy: int, layout: int) -> bool:
+    """upgrade-sslcontext-tls (detector-driven): complete real transformer chain with ONE result placed on the vulnerable call of a
+    selector-built module (import style x argument list x unreported identical call / unrelated call x layout).  The
+    token delta lies inside the documented edit, arguments are kept in order, unreported statements are unchanged,
+    the output compiles and no name becomes unresolved.
+    post: _
+    """
+    return fin(_sast("upgrade-sslcontext-tls", style, args, decoy, layout))
+
+
+def sast_limit_readline(style: int, args: int, decoy: int, layout: int) -> bool:
+    """limit-readline (detector-driven): complete real transformer chain with ONE result placed on the vulnerable call of a
+    selector-built module (import style x argument list x unreported identical call / unrelated call x layout).  The
+    token delta lies inside the documented edit, arguments are kept in order, unreported statements are unchanged,
+    the output compiles and no name becomes unresolved.
+    post: _
+    """
+    return fin(_sast("limit-readline", style, args, decoy, layout))
+
+
+def sast_secure_flask_cookie(style: int, args: int, decoy: int, layout: int) -> bool:
+    """secure-flask-cookie (detector-driven): complete real transformer chain with ONE result placed on the vulnerable call of a
+    selector-built module (import style x argument list x unreported identical call / unrelated call x layout).  The
+    token delta lies inside the documented edit, arguments are kept in order, unreported statements are unchanged,
+    the output compiles and no name becomes unresolved.
+    post: _
+    """
+    return fin(_sast("secure-flask-cookie", style, args, decoy, layout))
+
+
+def sast_jwt_decode_verify(style: int, args: int, decoy: int, layout: int) -> bool:
+    """jwt-decode-verify (detector-driven): complete real transformer chain with ONE result placed on the vulnerable call of a
+    selector-built module (import style x argument list x unreported identical call / unrelated call x layout).  The
+    token delta lies inside the documented edit, arguments are kept in order, unreported statements are unchanged,
+    the output compiles and no name becomes unresolved.
+    post: _
+    """
+    return fin(_sast("jwt-decode-verify", style, args, decoy, layout))
+
+
+def sast_harden_ruamel(style: int, args: int, decoy: int, layout: int) -> bool:
+    """harden-ruamel (detector-driven): complete real transformer chain with ONE result placed on the vulnerable call of a
+    selector-built module (import style x argument list x unreported identical call / unrelated call x layout).  The
+    token delta lies inside the documented edit, arguments are kept in order, unreported statements are unchanged,
+    the output compiles and no name becomes unresolved.
+    post: _
+    """
+    return fin(_sast("harden-ruamel", style, args, decoy, layout))
+
+
+def sast_django_json_response_type(style: int, args: int, decoy: int, layout: int) -> bool:
+    """django-json-response-type (detector-driven): complete real transformer chain with ONE result placed on the vulnerable call of a
+    selector-built module (import style x argument list x unreported identical call / unrelated call x layout).  The
+    token delta lies inside the documented edit, arguments are kept in order, unreported statements are unchanged,
+    the output compiles and no name becomes unresolved.
+    post: _
+    """
+    return fin(_sast("django-json-response-type", style, args, decoy, layout))
+
+
 def planted_drop_arg(spec: List[Tuple[int, int]]) -> bool:
     """Self-test: a replace that drops an unrelated keyword argument must be refuted.
     pre: len(spec) <= 2
@@ -244,6 +400,10 @@ def warmup():
     https_proxy_config_arg(3, 2)
     for _i in range(4):
         _harden(_i, 2, 1, 1)
+    from harness import hardsast
+
+    for _n in hardsast.ORDER:
+        hardsast.check(_n, 1, 1, 1, 1)
 
 
 SPEC = {
@@ -256,17 +416,21 @@ SPEC = {
         "SecureCookieMixin._choose_new_args",
         "HTTPSConnectionModifier.updated_args / count_positional_args",
         "the complete real pipelines of use-defusedxml, harden-pickle-load, https-connection, subprocess-shell-false (ImportedCallModifier / NameResolutionMixin / import add-remove) on selector-built modules",
+        "the complete real transformer chains of 15 detector-driven hardening codemods (requests-verify, add-requests-timeouts, harden-pyyaml, harden-ruamel, jwt-decode-verify, enable-jinja2-autoescape, safe-lxml-parser-defaults, safe-lxml-parsing, secure-random, secure-flask-cookie, sandbox-process-creation, url-sandbox, upgrade-sslcontext-tls, limit-readline, django-json-response-type) with one result placed on the vulnerable call",
     ],
     "bounds": {
         "quick": "calls with <= 3 arguments (thorough 4): per argument keyword selector {positional, verify, timeout, other} and star / '=' spacing selector, libcst-valid orderings without repeated keywords; 1-2 NewArgs with symbolic add_if_missing",
         "thorough": "<= 4 arguments",
+        "families": "4 import styles x 3-4 argument lists x 3 surroundings (x 3 layouts for the detector-driven family: one line, one argument per line with trailing comma, inside a function body); selectors are unbounded symbolic ints reduced by the harness",
     },
     "assumptions": [
         "cst.parse_expression (native) is memoised on the concrete constant strings the codemods pass",
         "a call does not repeat a keyword (invalid Python)",
+        "detector-driven family: semgrep is absent, the detector is replaced by its contract - one result located exactly on the vulnerable call expression (SARIF convention, 1-based columns); which calls semgrep would report is not decided here",
+        "documented deltas of the detector-driven family are transcribed from src/core_codemods/docs/*.md as upper bounds on the NAME / NUMBER / STRING token multiset difference",
     ],
     "stubs": ["self (object carrying only make_new_arg)", "cst.parse_expression memoisation"],
-    "outside": ["hardening codemods other than the four in the whole-pipeline family and the kernels above (semgrep-detected ones need the absent detector)", "HardenPyyaml / jwt option surgery"],
+    "outside": ["the semgrep rules themselves (which calls are reported)", "hardening codemods outside the two whole-pipeline families (django settings codemods, upgrade-sslcontext-minimum-version, flask session configuration, timezone-aware-datetime, fix-math-isclose)", "argument pools beyond 3-4 shapes per codemod (positional / keyword / star / nested call)"],
     "xh": [
         Xh("replace_args_only_named", 400, 1200),
         Xh("add_arg_and_targets", 200, 600),
@@ -276,6 +440,21 @@ SPEC = {
         Xh("harden_pickle", 200, 400),
         Xh("harden_https", 200, 400),
         Xh("harden_shell_false", 200, 400),
+        Xh("sast_requests_verify", 200, 400),
+        Xh("sast_add_requests_timeouts", 200, 400),
+        Xh("sast_harden_pyyaml", 200, 400),
+        Xh("sast_enable_jinja2_autoescape", 200, 400),
+        Xh("sast_safe_lxml_parser_defaults", 200, 400),
+        Xh("sast_safe_lxml_parsing", 200, 400),
+        Xh("sast_secure_random", 200, 400),
+        Xh("sast_sandbox_process_creation", 200, 400),
+        Xh("sast_url_sandbox", 200, 400),
+        Xh("sast_upgrade_sslcontext_tls", 200, 400),
+        Xh("sast_limit_readline", 200, 400),
+        Xh("sast_secure_flask_cookie", 200, 400),
+        Xh("sast_jwt_decode_verify", 200, 400),
+        Xh("sast_harden_ruamel", 200, 400),
+        Xh("sast_django_json_response_type", 200, 400),
         Xh("planted_drop_arg", 60, 120, twin=False, expect="refuted"),
     ],
 }
